@@ -276,6 +276,15 @@ def h_block_values(V, sym, case):
     elif case == 'common-leg':
         T = {(0, 0): symbolic_tensor(V, 'a', sym, [lA, mid, rA]), (1, 1): symbolic_tensor(V, 'b', sym, [lB, mid, rB]), (0, 1): symbolic_tensor(V, 'c', sym, [lC, mid, rB])}
         common = (1,)
+    elif case == 'common-legs-counted-from-the-end':
+        T = {(0,): symbolic_tensor(V, 'a', sym, [lA, mid, rA]), (1,): symbolic_tensor(V, 'b', sym, [lB, mid, rA])}
+        pos_ = V.call(yastn.block, T, common_legs=(1, 2))
+        neg_ = V.outcome(yastn.block, T, common_legs=(-2, -1))
+        V.check('negative-common_legs-accepted', neg_.exc is None)
+        if neg_.exc is None:
+            V.check('negative-common_legs-mean-the-same-legs', neg_.value.struct == pos_.struct and neg_.value.slices == pos_.slices and neg_.value.hfs == pos_.hfs)
+            V.check_equal('negative-common_legs-same-values', list(np.asarray(neg_.value._data)), list(np.asarray(pos_._data)))
+        return
     elif case == 'column':
         T = {(0,): symbolic_tensor(V, 'a', sym, [lA, rA]), (1,): symbolic_tensor(V, 'b', sym, [lB, rA]), (2,): symbolic_tensor(V, 'c', sym, [lC, rA])}
         common = (1,)
@@ -283,6 +292,32 @@ def h_block_values(V, sym, case):
         b = symbolic_tensor(V, 'b', sym, [rB.conj(), lB.conj()])
         T = {(0, 0): symbolic_tensor(V, 'a', sym, [lA, rA]), (1, 1): V.call(V.call(b.transpose, (1, 0)).conj)}
         common = ()
+    elif case == 'contraction-over-blocked-leg':
+        # <A|B> over a blocked leg whose summands have DISJOINT sector content at one position and overlapping content at another
+        # (intersection of 'sum' histories): the disjoint position contributes nothing, the other one everything
+        m_x, m_xp, m_y, m_yp = (0b0001, 0b0010, 0b0011, 0b0110) if MOD[sym] else (FULL,) * 4
+        r3 = make_leg(sym, -1, FULL)
+        x = symbolic_tensor(V, 'x', sym, [make_leg(sym, 1, m_x), mid, r3])
+        xp = symbolic_tensor(V, 'p', sym, [make_leg(sym, 1, m_xp), mid, r3])
+        y = symbolic_tensor(V, 'y', sym, [make_leg(sym, 1, m_y), mid, r3])
+        yp = symbolic_tensor(V, 'q', sym, [make_leg(sym, 1, m_yp), mid, r3])
+        A = V.call(yastn.block, {0: x, 1: y}, common_legs=(1, 2))
+        B = V.call(yastn.block, {0: xp, 1: yp}, common_legs=(1, 2))
+        C = V.call(A.tensordot, B, axes=((0,), (0,)), conj=(1, 0))
+        lg = {0: mid.conj(), 1: r3.conj(), 2: mid, 3: r3}
+        Cd = np.asarray(V.call(C.to_numpy, legs=lg))
+        full0 = make_leg(sym, 1, FULL)
+        def d3(t):
+            return np.asarray(V.call(t.to_numpy, legs={0: full0, 1: mid, 2: r3}))
+        R = np.tensordot(d3(x), d3(xp), axes=((0,), (0,))) + np.tensordot(d3(y), d3(yp), axes=((0,), (0,)))
+        V.check_equal('contraction-over-a-blocked-leg-is-the-sum-over-positions', Cd.ravel().tolist() if Cd.shape == R.shape else [0, 1], R.ravel().tolist() if Cd.shape == R.shape else [1, 0])
+        A2 = V.call(yastn.block, {(0, 0): x, (1, 1): y}, common_legs=(1,))
+        B2 = V.call(yastn.block, {(0, 0): xp, (1, 1): yp}, common_legs=(1,))
+        v = V.call(A2.vdot, B2)
+        V.check_equal('vdot-of-block-diagonal-tensors-is-the-sum-over-positions', [v], [(d3(x) * d3(xp)).sum() + (d3(y) * d3(yp)).sum()])
+        tr = V.call(V.call(A.tensordot, B, axes=((0, 1), (0, 1)), conj=(1, 0)).trace, axes=(0, 1))
+        V.check_equal('trace-of-the-transfer-matrix-is-the-sum-over-positions', [V.call(tr.to_number)], [(d3(x) * d3(xp)).sum() + (d3(y) * d3(yp)).sum()])
+        return
     elif case == 'fused-operands':
         # two tensors in one block row whose (shared) row leg was hard-fused from legs with DIFFERENT sector content: block() has to embed
         # both into the union of the fusion histories.  Oracle: block-matrix algebra after unfusing -- (X Y).(D; E) = x.D + y.E
@@ -412,7 +447,7 @@ def units(tier):
             for lazy in (False, True):
                 U.append(('h_fused_mismatch', f"{sym},{mode},lazy={lazy}", dict(sym=sym, mode=mode, lazy=lazy)))
     for sym in (ALL_SYMS if th else ('dense', 'Z2', 'U1', 'U1xU1xZ2')):
-        for case in ('matrix-2x2-one-missing', 'skipped-position', 'common-leg', 'column', 'lazy-operand', 'fused-operands'):
+        for case in ('matrix-2x2-one-missing', 'skipped-position', 'common-leg', 'column', 'lazy-operand', 'fused-operands', 'contraction-over-blocked-leg', 'common-legs-counted-from-the-end'):
             U.append(('h_block_values', f"{sym},{case}", dict(sym=sym, case=case)))
     syms = ALL_SYMS if th else ('dense', 'Z2', 'U1', 'Z2xU1')
     cases = [  # nd, axes, trans
